@@ -691,6 +691,20 @@ def stepRef (ctx : Ctx) (st : RState) (p : Path) (x : Name) (v : Decoded) (mode 
       else if refConflict ctx st.bases st.done p x then .error .refConflict
       else .ok { dropFor ctx st p with done := st.done ++ [(p, x)] }
 
+/-- `mx.get_object(base)` for every base of an `add_bases` instruction -/
+def resolveBases (ctx : Ctx) (bs : List Text) : Except Err (List Path) :=
+  mapE (fun b => match resolveBase ctx.model b with
+    | some q => if ctx.spaces.contains q then .ok q else .error .noBase
+    | none => .error .noBase) bs
+
+/-- `space.add_bases(*bases)`: every space must have a linearisation in the graph as it is now -/
+def stepBases (ctx : Ctx) (st : RState) (p : Path) (bs : List Text) : Except Err RState :=
+  match resolveBases ctx bs with
+  | .error e => .error e
+  | .ok qs =>
+    if allMro ctx (st.bases ++ [(p, qs)]) then .ok (dropFor ctx { st with bases := st.bases ++ [(p, qs)] } p)
+    else .error .basesOrder
+
 /-- executing one instruction of the object at `p` -/
 def step (ctx : Ctx) (st : RState) (i : Path × Op) : Except Err RState :=
   match i.2 with
@@ -701,14 +715,7 @@ def step (ctx : Ctx) (st : RState) (i : Path × Op) : Except Err RState :=
   | .cellsCached _ _ => .ok st
   | .setFormula _ => .ok (dropFor ctx st i.1)
   | .newCells _ _ => .ok (dropFor ctx st i.1)
-  | .addBases bs =>
-    match mapE (fun b => match resolveBase ctx.model b with
-        | some q => if ctx.spaces.contains q then .ok q else .error .noBase
-        | none => .error .noBase) bs with
-    | .error e => .error e
-    | .ok qs =>
-      let st' := { st with bases := st.bases ++ [(i.1, qs)] }
-      if allMro ctx st'.bases then .ok (dropFor ctx st' i.1) else .error .basesOrder
+  | .addBases bs => stepBases ctx st i.1 bs
   | .loadPickle _ es =>
     if es.all (fun e => ctx.pickle.contains e.1 && ctx.pickle.contains e.2) then .ok st else .error .noPickleId
   | .setAttr x v => stepRef ctx st i.1 x v .auto
